@@ -48,7 +48,7 @@ Proof. exact core_ranked. Qed.
 Print Assumptions C16_ranked.
 
 (* the candidate narrowing and the edit range are NOT covered by these theorems: they are where
-   the recorded findings live (Tie/C16.v classes 1, 2, 4); witnesses through the model: *)
+   the recorded finding lives (Tie/C16.v class 1); witnesses through the model: *)
 Example C16_refuted_prefix_key_after_blank :
   let all := [bs "assets:my bank:savings"; bs "bank:fees"] in
   let byp := [(bs "assets:", [bs "assets:my bank:savings"]); (bs "assets:my bank:", [bs "assets:my bank:savings"]);
@@ -57,6 +57,12 @@ Example C16_refuted_prefix_key_after_blank :
   accounts_for_prefix all byp (extract_account_prefix content 0 22) = [bs "bank:fees"].
 Proof. vm_compute. reflexivity. Qed.
 
-Example C16_refuted_edit_start_after_cursor :
-  edit_start (bs "commodity U") 0 4 (determine_context (bs "commodity U") 0 4 0) = Some 10.
+(* the edit range (repaired in /repo, fix 54bc582): with the cursor inside a directive keyword the
+   start is the cursor, not the end of the keyword; in payee context inside the date nothing is replaced *)
+Example C16_edit_start_clamped_to_cursor :
+  edit_start (bs "commodity U") 0 4 (determine_context (bs "commodity U") 0 4 0) = Some 4.
+Proof. vm_compute. reflexivity. Qed.
+
+Example C16_payee_edit_inside_date_is_empty :
+  edit_start (bs "2024-05-05 ") 0 6 CPayee = Some 6.
 Proof. vm_compute. reflexivity. Qed.
